@@ -69,8 +69,10 @@ type vnCase struct {
 }
 
 // vnBodyCount: the block response carrying one block (hash 01..20, no header) whose body has n one-byte extrinsics.
+var vnBodyLen = 1 // extrinsic length of the bodycount case in hand
+
 func vnBodyCount(raw json.RawMessage) (m *messages.BlockResponseMessage, n int, fill byte) {
-	var v struct{ N, Fill int }
+	var v struct{ N, Fill, Len int }
 	if err := json.Unmarshal(raw, &v); err != nil {
 		panic("VERIF-INFRA bodycount value")
 	}
@@ -79,10 +81,14 @@ func vnBodyCount(raw json.RawMessage) (m *messages.BlockResponseMessage, n int, 
 		h[i] = byte(i + 1)
 	}
 	bd := &types.BlockData{Hash: h}
+	if v.Len == 0 {
+		v.Len = 1
+	}
+	vnBodyLen = v.Len
 	if v.N > 0 {
 		exts := make([]types.Extrinsic, v.N)
 		for i := range exts {
-			exts[i] = types.Extrinsic{byte(v.Fill)}
+			exts[i] = types.Extrinsic(bytes.Repeat([]byte{byte(v.Fill)}, v.Len))
 		}
 		bd.Body = types.NewBody(exts)
 	}
@@ -98,8 +104,8 @@ func vnBodyCountOf(m *messages.BlockResponseMessage, fill byte) string {
 		return "0 extrinsics"
 	}
 	for _, e := range *b {
-		if len(e) != 1 || e[0] != fill {
-			return fmt.Sprintf("%d extrinsics, one of them %x", len(*b), []byte(e))
+		if len(e) != vnBodyLen || !bytes.Equal(e, bytes.Repeat([]byte{fill}, vnBodyLen)) {
+			return fmt.Sprintf("%d extrinsics, one of them of %d bytes (%x...)", len(*b), len(e), []byte(e)[:min(len(e), 8)])
 		}
 	}
 	return fmt.Sprintf("%d extrinsics", len(*b))
@@ -458,6 +464,9 @@ func TestVerifNetMsgEnc(t *testing.T) {
 					m, n, fill := vnBodyCount(c.O.V)
 					want := c.Res.Pb.Bytes()
 					sig := fmt.Sprintf("C14/bodycount/%d", n)
+					if vnBodyLen > 1 {
+						sig = fmt.Sprintf("C14/bodycount/%dx%d", n, vnBodyLen)
+					}
 					enc, err := m.Encode()
 					enc = vnPbNorm("blockresponse", enc)
 					res.Cmp()
@@ -621,9 +630,12 @@ func TestVerifNetMsgDec(t *testing.T) {
 				b = c.Res.Pb.Bytes()
 				c.Res.N = len(b)
 				c.Res.Enc = nil
-				var v struct{ N int }
+				var v struct{ N, Len int }
 				_ = json.Unmarshal(c.O.V, &v)
 				c.O.Ty = fmt.Sprintf("bodycount/%d", v.N)
+				if v.Len > 1 {
+					c.O.Ty = fmt.Sprintf("bodycount/%dx%d", v.N, v.Len)
+				}
 			}
 			key := ""
 			if c.Res.Ok || c.Res.Why != "short" {
